@@ -31,6 +31,9 @@ pub enum Op2 {
     DefineFn(usize),
     /// invoke a command by name with one argument and look at whether it is found
     Invoke(String),
+    /// execute the definition line of a function whose `end` is missing: the definition fails and must leave nothing
+    /// in the registry
+    DefineEndless,
 }
 
 #[derive(Serialize, Deserialize, Clone, Debug, PartialEq)]
@@ -247,6 +250,8 @@ fn run_l2(ops: &[Op2], exits: Option<&[bool]>) -> Verdict {
     for k in 0..N_FNS {
         text.push_str(&format!("fn f{}\nend\n", k));
     }
+    // (last line: a definition without end)
+    text.push_str("fn endless\n");
     let instructions = duckscript::parser::parse_text(&text).expect("parse");
     let mut m = sync_model(&world.ctx.commands);
     // names created through `alias`
@@ -330,6 +335,22 @@ fn run_l2(ops: &[Op2], exits: Option<&[bool]>) -> Verdict {
                         c.violate("output-mismatch", format!("{}: command lookup says {}, model {}", label, found, m.exists(x)));
                     }
                 });
+            }
+            Op2::DefineEndless => {
+                if exits.is_none() {
+                    let line = 2 * N_FNS;
+                    let (result, _) = duckscript::runner::run_instruction(&mut world.ctx.commands, &mut world.ctx.variables, &mut world.ctx.state, &instructions, instructions[line].clone(), line, &mut world.env);
+                    let kind = sim::result_kind(&result).to_string();
+                    sim::with_core(|c| {
+                        let seq = c.next_seq();
+                        c.log.push(sim::Event::Op { seq, op: "fn".to_string(), args: vec!["endless".to_string()], got: kind.clone(), want: "Crash or Error".to_string() });
+                        c.probe("fn-definition-without-end");
+                        if kind != "Crash" && kind != "Error" {
+                            c.violate("output-mismatch", format!("{}: a definition without end answered {}", label, kind));
+                        }
+                    });
+                    // the tables are compared below: nothing may have been registered
+                }
             }
             Op2::DefineFn(k) => {
                 let name = format!("f{}", k);
@@ -449,6 +470,7 @@ fn gen_l2(rng: &mut Rng) -> Vec<Op2> {
             6 | 7 => Op2::RemoveCommand(rng.pick(&L2_NAMES).to_string()),
             8 => Op2::IsDefined(rng.pick(&L2_NAMES).to_string()),
             9 => Op2::Invoke(rng.pick(&["g0", "g1", "g2", "f0", "f1"]).to_string()),
+            10 if rng.chance(1, 3) => Op2::DefineEndless,
             _ => Op2::DefineFn(rng.usize(N_FNS)),
         })
         .collect()
